@@ -27,7 +27,10 @@ class ConstraintYamlWriter(YamlWriterMixin, ConstraintDReprBase):
         if _class is GaussianSimpleParameterConstraint:
             _yaml_doc["index"] = constraint.index
             _yaml_doc["value"] = constraint.value
-            _yaml_doc["uncertainty"] = constraint.uncertainty
+            if constraint.relative:
+                _yaml_doc["uncertainty"] = constraint.uncertainty_rel
+            else:
+                _yaml_doc["uncertainty"] = constraint.uncertainty
             _yaml_doc["relative"] = constraint.relative
         elif _class is GaussianMatrixParameterConstraint:
             _yaml_doc["indices"] = constraint.indices.tolist()
